@@ -580,8 +580,8 @@ func firstLine(s string) string {
 	return s
 }
 
-// suspects are the inputs of repaired defects (known_findings.json: status fixed; commits feae37f,
-// 4102be9, 91f82bb), replayed on every run as regression assertions: a recurrence is a VIOLATION.
+// suspects are the inputs of repaired defects (known_findings.json: status fixed; commits fc041fc,
+// e51fcfc, 221f70c), replayed on every run as regression assertions: a recurrence is a VIOLATION.
 func suspects(c *hc.Ctx) {
 	{
 		p := canvas.MustParseSVGPath("M7.75 2.25A16.25 1.702 59.99999999999999 1 0 4 -4.246")
